@@ -623,6 +623,7 @@ func pmMasterMain(args []string) {
 //           w            wait until every request sent so far has been answered or has failed
 //           k<i>         SIGKILL worker i
 //           q            wait until nothing has changed for 300 ms
+//           z<ms>        stay idle for <ms>
 //     R<id>=<worker>,<t0>,<t1>   request <id> was answered by worker <worker>; it served it from t0 to t1 (µs, the
 //                                worker's clock);  R<id>=E   the connection ended without an answer
 //   If the master process dies (log.Fatalf) there is no answer line: the op answers `crash-master`.
@@ -785,6 +786,11 @@ func pmRealMain(args []string) {
 			if pid, found := m.pidOf(i, budget); found {
 				m.kill(pid, budget)
 			}
+			sb.WriteString(" " + m.waitQuiet(60*time.Millisecond, budget))
+		case 'z':
+			// nothing happens for <ms>: idle workers sit in Accept (an idle period is not a request and times nothing out)
+			ms, _ := strconv.Atoi(tok[1:])
+			time.Sleep(time.Duration(ms) * time.Millisecond)
 			sb.WriteString(" " + m.waitQuiet(60*time.Millisecond, budget))
 		case 'q':
 			sb.WriteString(" " + m.waitQuiet(300*time.Millisecond, 4*time.Second))
